@@ -45,7 +45,7 @@ class Session:
 
     _n = 0
 
-    def __init__(self, asn4: bool, addpath: bool, ibgp: bool, extnh: bool = False) -> None:
+    def __init__(self, asn4: bool, addpath: bool, ibgp: bool, extnh: bool = False, aigp: bool = False) -> None:
         Session._n += 1
         self.key = (asn4, addpath, ibgp, extnh)
         peer_as = 65000 if ibgp else 65001
@@ -59,7 +59,7 @@ neighbor {addr} {{
   hold-time 90;
   adj-rib-in true;
   family {{ ipv4 unicast; ipv6 unicast; }}
-  capability {{ add-path send/receive; route-refresh enable; graceful-restart disable; {'nexthop enable;' if extnh else ''} }}
+  capability {{ add-path send/receive; route-refresh enable; graceful-restart disable; {'nexthop enable;' if extnh else ''} {'aigp enable;' if aigp else 'aigp disable;'} }}
   {'nexthop { ipv4 unicast ipv6; }' if extnh else ''}
 }}
 """
